@@ -25,6 +25,9 @@ pub enum LimitKind {
     Combined { size: usize },
     /// runtime limit in ms with check frequency; the traversal model sleeps 3x the limit at call k
     Runtime { limit_ms: u64, frequency: u64, sleep_at: u64 },
+    /// the runtime limit as written in a configuration ("H:MM:SS" text + check frequency): the
+    /// model built from it must carry exactly that budget and frequency
+    RuntimeConfig { h: u64, m: u64, s: u64, frequency: u64 },
 }
 
 #[derive(Clone, Debug, Serialize, Deserialize)]
@@ -179,7 +182,7 @@ impl Prop for C10 {
         "C10"
     }
     fn rule(&self) -> String {
-        "generated: network x query (Dijkstra, A* any factor, single-via and Yen k-shortest paths whose sub-searches are limited individually - Yen only as limited-versus-unlimited relation; forward/reverse; with/without destination) x limit kind; for iteration, solution-size and combined limits the limit value is swept exhaustively from 0 to what the unlimited search needs + 3, through the configuration builder; expansions are observed by a counting frontier model, tree sizes are recomputed by replaying the recorded expansion order in a reference relaxation; runtime limits use a traversal model that sleeps 3x the budget at a generated call. non-trivial = a limit value strictly between 0 and the needed amount on a search that needs >= 3 expansions (or a runtime case whose sleep happens before the search would end)".to_string()
+        "generated: network x query (Dijkstra, A* any factor, single-via and Yen k-shortest paths whose sub-searches are limited individually - Yen only as limited-versus-unlimited relation; forward/reverse; with/without destination) x limit kind; for iteration, solution-size and combined limits the limit value is swept exhaustively from 0 to what the unlimited search needs + 3, through the configuration builder; expansions are observed by a counting frontier model, tree sizes are recomputed by replaying the recorded expansion order in a reference relaxation; runtime limits use a traversal model that sleeps 3x the budget at a generated call; the runtime limit as configuration text (H:MM:SS, frequency) must build a model with exactly that budget. non-trivial = a limit value strictly between 0 and the needed amount on a search that needs >= 3 expansions (or a runtime case whose sleep happens before the search would end)".to_string()
     }
     fn cases(&self, tier: Tier) -> u32 {
         tier.pick(30_000, 600_000)
@@ -204,6 +207,7 @@ impl Prop for C10 {
             30 => Just(LimitKind::SolutionSize),
             20 => (0usize..12).prop_map(|size| LimitKind::Combined { size }),
             1 => (1u64..4, 0u64..12).prop_map(|(frequency, sleep_at)| LimitKind::Runtime { limit_ms: 60, frequency, sleep_at }),
+            2 => (prop_oneof![3 => Just(0u64), 2 => 0u64..30, 1 => 100u64..2000], 0u64..60, 0u64..60, 1u64..5000).prop_map(|(h, m, s, frequency)| LimitKind::RuntimeConfig { h, m, s, frequency }),
         ];
         (crate::props::c03::c03_strategy(max_n, algs), kind, proptest::bool::weighted(0.8))
             .prop_map(|(mut search, kind, with_dest)| {
@@ -237,6 +241,25 @@ impl Prop for C10 {
         o.label(format!("alg-{}", alg));
         o.label_if(sc.reverse, "reverse");
         o.label_if(sc.d.is_none(), "no-destination");
+        if let LimitKind::RuntimeConfig { h, m, s, frequency } = &case.kind {
+            o.label("kind-runtime-configuration-text");
+            let text = format!("{}:{:02}:{:02}", h, m, s);
+            let want = Duration::from_secs(h * 3600 + m * 60 + s);
+            match TerminationModelBuilder::build(&json!({"type": "query_runtime", "limit": text, "frequency": frequency}), None) {
+                Ok(TerminationModel::QueryRuntimeLimit { limit, frequency: f }) => {
+                    if limit != want || f != *frequency {
+                        o.fail(
+                            "C10/runtime-limit/configured-budget-is-not-the-budget-in-force",
+                            json!({"configured": text, "configured_frequency": frequency, "budget_in_force_s": limit.as_secs_f64(), "frequency_in_force": f}),
+                        );
+                    }
+                }
+                Ok(other) => o.fail("C10/runtime-limit/builder-returned-another-model", json!({"configured": text, "got": format!("{:?}", other)})),
+                Err(e) => o.fail("C10/runtime-limit/valid-configuration-rejected", json!({"configured": text, "error": e.to_string()})),
+            }
+            o.nontrivial = *s != *m && (*h > 0 || *m > 0);
+            return o;
+        }
         if sc.alg.is_yens() {
             check_yens(sc, &mut o);
             return o;
@@ -446,6 +469,7 @@ impl Prop for C10 {
                     }
                 }
             }
+            LimitKind::RuntimeConfig { .. } => {}
             LimitKind::Runtime { limit_ms, frequency, sleep_at } => {
                 o.label("kind-runtime");
                 if !plain {
